@@ -493,6 +493,7 @@ func (ex *explorer) worker(w int) (err error) {
 	r.Stats.ConcretizeOverflow += st.ConcretizeOverflow
 	r.Stats.Steps += st.Steps
 	r.Stats.Imprecise += st.Imprecise
+	r.Stats.LazyForced += st.LazyForced
 	for k := 0; k < 3; k++ {
 		r.Queries[k] += int64(i.solver.Queries[k])
 	}
